@@ -220,29 +220,53 @@ def _scan_abort(tree):
 
 
 def _scan_init(tree):
+    """EVERY os.open of the lock path in `_GitFile.__init__` (retry paths included), in source order, with its flags
+    resolved through local variables (`flags = os.O_RDWR | …; os.open(lock, flags | os.O_EXCL, mask)`)."""
     fn = T.find_def(tree, "_GitFile.__init__")
-    opens = [n for n in ast.walk(fn) if isinstance(n, ast.Call) and _call_name(n) == "os.open"]
-    if len(opens) != 1:
-        raise T.TranslateError(f"_GitFile.__init__: expected one os.open, found {len(opens)}")
-    c = opens[0]
-    if not c.args or not _is_self_attr(c.args[0], "_lockfilename"):
-        raise T.TranslateError("_GitFile.__init__: os.open is not applied to the lock file name")
-    flags = set()
-    if len(c.args) > 1:
-        for n in ast.walk(c.args[1]):
-            if isinstance(n, ast.Attribute) and isinstance(n.value, ast.Name) and n.value.id == "os" \
-                    and n.attr.startswith("O_"):
-                flags.add(n.attr)
+    assigns = {}
+    for n in ast.walk(fn):
+        if isinstance(n, ast.Assign) and len(n.targets) == 1 and isinstance(n.targets[0], ast.Name):
+            assigns.setdefault(n.targets[0].id, []).append(n)
+        if isinstance(n, ast.AugAssign) and isinstance(n.target, ast.Name):
+            assigns.setdefault(n.target.id, []).append(n)
+
+    def flags_of(expr, before_line, depth=0):
+        out = set()
+        for n in ast.walk(expr):
+            if isinstance(n, ast.Attribute) and isinstance(n.value, ast.Name) and n.value.id == "os" and n.attr.startswith("O_"):
+                out.add(n.attr)
+            elif isinstance(n, ast.Name) and n.id in assigns and depth < 5:
+                # every assignment to that name that precedes the use (augmented ones add flags)
+                for a in assigns[n.id]:
+                    if a.lineno <= before_line:
+                        out |= flags_of(a.value, a.lineno, depth + 1)
+        return out
+    opens = sorted((n for n in ast.walk(fn) if isinstance(n, ast.Call) and _call_name(n) == "os.open"),
+                   key=lambda n: (n.lineno, n.col_offset))
+    if not opens:
+        raise T.TranslateError("_GitFile.__init__: no os.open found")
+    per_open = []
+    for c in opens:
+        if not c.args or not _is_self_attr(c.args[0], "_lockfilename"):
+            raise T.TranslateError("_GitFile.__init__: an os.open is not applied to the lock file name")
+        fl = flags_of(c.args[1], c.lineno) if len(c.args) > 1 else set()
+        per_open.append(fl)
     locked = False
     for n in ast.walk(fn):
-        if isinstance(n, ast.Try) and any(x is c for x in ast.walk(n)):
+        if isinstance(n, ast.Try) and any(x is opens[0] for x in ast.walk(n)):
             for h in n.handlers:
-                if isinstance(h.type, ast.Name) and h.type.id == "FileExistsError":
+                names = [h.type.id] if isinstance(h.type, ast.Name) else \
+                    [e.id for e in getattr(h.type, "elts", []) if isinstance(e, ast.Name)]
+                if "FileExistsError" in names:
                     for r in ast.walk(h):
                         if isinstance(r, ast.Raise) and isinstance(r.exc, ast.Call) and _call_name(r.exc) == "FileLocked":
                             locked = True
     if not locked:
         raise T.TranslateError("_GitFile.__init__: FileExistsError is not turned into FileLocked")
+    # a retry open must sit on a path that re-creates the directory (the model puts a mkdir step before it)
+    mk = any(isinstance(n, ast.Call) and _call_name(n) in ("ensure_dir_exists", "os.makedirs", "os.mkdir") for n in ast.walk(fn))
+    if len(opens) > 1 and not mk:
+        raise T.TranslateError("_GitFile.__init__: several os.open calls but no directory creation between them: shape not understood")
     suffix = None
     for n in ast.walk(fn):
         if isinstance(n, ast.BinOp) and isinstance(n.op, ast.Add) and _is_self_attr(n.left, "_filename") \
@@ -250,7 +274,7 @@ def _scan_init(tree):
             suffix = n.right.value
     if suffix is None:
         raise T.TranslateError("_GitFile.__init__: lock file suffix not found")
-    return {"flags": flags, "suffix": suffix}
+    return {"flags": per_open[0], "opens": per_open, "suffix": suffix}
 
 
 def _scan_exit_del(tree):
@@ -313,7 +337,10 @@ open Dulwich.Lock
 /-- `os.open(self._lockfilename, FLAGS, mask)`: O_CREAT / O_EXCL among the flags -/
 def openCreat : Bool := {_lb("O_CREAT" in fl)}
 def openExcl : Bool := {_lb("O_EXCL" in fl)}
-/-- flags of that call, for the record -/
+/-- EVERY `os.open(self._lockfilename, …)` of `__init__` in source order (the first is the normal open, any further
+one a retry after ENOENT and re-creating the parent directory): does it carry both O_CREAT and O_EXCL -/
+def opens : List Bool := [{", ".join(_lb("O_CREAT" in f and "O_EXCL" in f) for f in p["init"]["opens"])}]
+/-- flags of the first call, for the record -/
 def openFlags : List String := [{", ".join('"' + f + '"' for f in sorted(fl))}]
 /-- lock file name = target name ++ this -/
 def lockSuffix : String := "{p["init"]["suffix"]}"
@@ -469,7 +496,8 @@ def _persistent_enospc():
     return e
 
 FAULT_KINDS = ["enospc", "eperm", "kbint"]
-SCHED_CALLS = {"open-x", "open-w", "fsync", "stat", "chmod", "replace", "remove"}
+# (os.makedirs itself is not a yield point: the os.mkdir it makes is; the stat of its exists() probe is released at once)
+SCHED_CALLS = {"open-x", "open-w", "fsync", "stat", "chmod", "replace", "remove", "mkdir", "rmdir"}
 OPEN_CALLS = ("open-x", "open-w")   # open-w: the lock file opened without O_EXCL (only a mutated program does that)
 LOCK_CALLS = {"open-x", "write", "flush", "fsync", "fclose", "stat", "chmod", "replace", "remove"}
 
@@ -481,28 +509,38 @@ class Script:
     """One actor: GitFile(f, 'wb', fsync=…, shared_perm=…) then `body`; `hW`/`hC` = what the caller does when
     write()/close() raises.  ops: ('w', bytes) | 'c' | 'a'."""
 
-    def __init__(self, body, hW=("a",), hC=(), fsync=True, perm=False):
+    def __init__(self, body, hW=("a",), hC=(), fsync=True, perm=False, mk=False, pruner=False):
+        """mk: the caller does ensure_dir_exists(parent) before GitFile(...);  pruner: not a writer at all, one
+        os.rmdir(parent) with errors suppressed (what remove_if_equals does to emptied ref directories, lock-free)"""
         self.body, self.hW, self.hC, self.fsync, self.perm = list(body), list(hW), list(hC), fsync, perm
+        self.mk, self.pruner = mk, pruner
 
     @staticmethod
     def _ops(ops):
         return ".".join(("w" + hx(o[1])) if isinstance(o, tuple) else o for o in ops) or "_"
 
     def spec(self) -> str:
-        return f"{int(self.fsync)}{int(self.perm)}:{self._ops(self.body)}:{self._ops(self.hW)}:{self._ops(self.hC)}"
+        if self.pruner:
+            return "R"
+        return (f"{int(self.fsync)}{int(self.perm)}{int(self.mk)}:{self._ops(self.body)}:{self._ops(self.hW)}:"
+                f"{self._ops(self.hC)}")
 
     def to_json(self):
         return {"spec": self.spec()}
 
     @staticmethod
     def from_spec(s: str) -> "Script":
+        if s == "R":
+            return Script([], pruner=True)
         flags, body, hW, hC = s.split(":")
+        if len(flags) == 2:      # cases recorded before the parent directory was modelled
+            flags += "0"
 
         def ops(t):
             if t == "_":
                 return []
             return [("w", unhx(x[1:])) if x[0] == "w" else x for x in t.split(".")]
-        return Script(ops(body), ops(hW), ops(hC), flags[0] == "1", flags[1] == "1")
+        return Script(ops(body), ops(hW), ops(hC), flags[0] == "1", flags[1] == "1", mk=flags[2] == "1")
 
     def intended(self):
         """content this caller means to commit: the writes before its first close() (None if it never closes)"""
@@ -525,6 +563,9 @@ def W(*ds, end="c", **kw):
     return Script([("w", d) for d in ds] + ([end] if end else []), **kw)
 
 
+PRUNER = Script([], pruner=True)
+
+
 # ------------------------------------------------------------------------------------------------
 # running scripts on real `_GitFile` handles under a schedule
 
@@ -538,23 +579,31 @@ class RealRun:
         self.results = {}
         self.written = {}       # actor index -> data successfully written so far, per event index
         self.api = {}           # actor index -> [(op kind 'w'|'c'|'a', 'ok'|'raised')]: the API calls the caller made
+        self.dirs = []          # dirs[k] = does the parent directory exist after k events
+        self.dir0 = True
         self.error = None
 
 
 def run_real(root: Path, scripts: list[Script], schedule, init: bytes | None, file_yields=True,
-             start_is_step=False) -> RealRun:
+             start_is_step=False, dir0=True) -> RealRun:
     """Drive one `_GitFile` handle per script on root/f following `schedule`:
     a list of (actor index, fault kind | None); entries naming an actor that is not pending are skipped, after
     the list the lowest pending actor runs.  With start_is_step the scheduler's initial park of each thread
     counts as a schedule entry (the convention of harness/sched.py's plain lists)."""
-    from dulwich.file import GitFile, FileLocked, PERM_GROUP
+    from dulwich.file import GitFile, FileLocked, PERM_GROUP, ensure_dir_exists
     root = Path(os.path.realpath(root))
     if root.exists():
         shutil.rmtree(root)
     root.mkdir(parents=True)
-    target = root / "f"
-    if init is not None:
-        target.write_bytes(init)
+    # the protected file lives in a directory of its own, which may be missing / pruned / re-created
+    pdir = root / "d"
+    target = pdir / "f"
+    if dir0:
+        pdir.mkdir()
+        if init is not None:
+            target.write_bytes(init)
+    else:
+        init = None
     rr = RealRun()
     names = [f"a{i:02d}" for i in range(len(scripts))]
     idx = {n: i for i, n in enumerate(names)}
@@ -577,7 +626,15 @@ def run_real(root: Path, scripts: list[Script], schedule, init: bytes | None, fi
             log[-1] = (kind, "ok")
 
         def fn():
+            if s.pruner:
+                try:
+                    os.rmdir(str(pdir))
+                except OSError:
+                    pass
+                return "pruned"
             try:
+                if s.mk:
+                    ensure_dir_exists(str(pdir))
                 f = GitFile(str(target), "wb", fsync=s.fsync, shared_perm=PERM_GROUP if s.perm else None)
             except FileLocked:
                 return "locked"
@@ -607,19 +664,28 @@ def run_real(root: Path, scripts: list[Script], schedule, init: bytes | None, fi
         sc.spawn(names[i], make(i, s))
 
     def snapshot():
-        listing = sorted(os.listdir(root))
+        try:
+            listing = sorted(os.listdir(pdir))
+            there = True
+        except FileNotFoundError:
+            listing, there = [], False
         try:
             content = target.read_bytes()
         except FileNotFoundError:
             content = None
+        rr.dirs.append(there)
         return listing, content
 
     seq = list(schedule)
     state = {"owner": None, "nev": 0}
 
+    def boring(call, paths):
+        # the exists() probe of os.makedirs: a stat of something that is not the lock file
+        return call == "stat" and not (paths and paths[0].endswith(".lock"))
+
     def absorb(history):
         # fold new real events into the log
-        evs = [e for e in history if e[1] != "start"]
+        evs = [e for e in history if e[1] != "start" and not boring(e[1], e[2])]
         while state["nev"] < len(evs):
             who, call, paths, outcome = evs[state["nev"]]
             i = idx[who]
@@ -634,6 +700,9 @@ def run_real(root: Path, scripts: list[Script], schedule, init: bytes | None, fi
 
     def choose(pending, history):
         absorb(history)
+        for a in sorted(pending):
+            if boring(*pending[a]):
+                return a
         if not start_is_step:
             for a in sorted(pending):
                 if pending[a][0] == "start":
@@ -651,6 +720,7 @@ def run_real(root: Path, scripts: list[Script], schedule, init: bytes | None, fi
             rr.steps.append((idx[a], None))
         return a
 
+    rr.dir0 = dir0
     rr.snaps.append(snapshot())
     rr.lock_owner.append(None)
     rr.written[0] = dict(wlog)
@@ -694,19 +764,32 @@ def canon_outcome(o: str) -> str:
     return "inject" if o.startswith("inject:") else o
 
 
+def canon_event(call: str, outcome: str):
+    """os.makedirs of ensure_dir_exists is the model's `mkdir` (EEXIST is swallowed by ensure_dir_exists); a
+    failing rmdir of a pruner (ENOTEMPTY / ENOENT, suppressed) is one outcome"""
+    oc = canon_outcome(outcome)
+    if call in ("makedirs", "mkdir"):
+        return "mkdir", ("ok" if oc in ("ok", "FileExistsError") else oc)
+    if call == "rmdir":
+        return "rmdir", (oc if oc in ("ok", "inject") else "OSError")
+    return call, oc
+
+
 def real_trace(rr: RealRun) -> list[str]:
     out = []
     for k, (i, call, outcome) in enumerate(rr.events):
         listing, content = rr.snaps[k + 1]
         own = rr.lock_owner[k + 1]
-        out.append(f"{call}:{canon_outcome(outcome)}:{'x' if content is None else hx(content)}:"
-                   f"{'x' if own is None else own}")
+        c, oc = canon_event(call, outcome)
+        out.append(f"{c}:{oc}:{'x' if content is None else hx(content)}:"
+                   f"{'x' if own is None else own}:{int(rr.dirs[k + 1])}")
     return out
 
 
-def model_line(scripts, steps, init, prog="gen") -> str:
+def model_line(scripts, steps, init, prog="gen", dir0=True) -> str:
     st = ",".join(f"{i}{'!' if fk else ''}" for i, fk in steps) or "_"
-    return f"c07.run {prog} {'x' if init is None else hx(init)} {'|'.join(s.spec() for s in scripts)} {st}"
+    return (f"c07.run {prog} {'x' if (init is None or not dir0) else hx(init)} {int(dir0)} "
+            f"{'|'.join(s.spec() for s in scripts)} {st}")
 
 
 def parse_model(out: str):
@@ -766,7 +849,9 @@ def monitor(scripts, init, rr: RealRun):
             if i in inside:
                 bad.append((f"step {k}: the lock file of holder {i} had vanished under it ({call})",
                             "foreign-lock-disturbed"))
-        if oc not in ("ok",) and not (call == "remove" and oc == "FileNotFoundError") and \
+        if call in ("mkdir", "makedirs", "rmdir"):
+            pass    # directory housekeeping (EEXIST / ENOTEMPTY are expected and swallowed by the callers)
+        elif oc not in ("ok",) and not (call == "remove" and oc == "FileNotFoundError") and \
                 not (call in OPEN_CALLS and oc == "FileExistsError"):
             failed.add(i)
             if call == "remove":
@@ -779,7 +864,7 @@ def monitor(scripts, init, rr: RealRun):
         if content != prev_content and not (call == "replace" and oc == "ok"):
             bad.append((f"step {k}: `f` changed at a step that is not a successful rename ({call}:{oc})",
                         "target-changed-outside-rename"))
-        if content is None and init is not None:
+        if content is None and init is not None and rr.dir0:
             bad.append((f"step {k}: `f` is missing", "target-missing"))
         prev_content = content
         # holders still have their lock file in place
@@ -809,10 +894,13 @@ def monitor(scripts, init, rr: RealRun):
 # ------------------------------------------------------------------------------------------------
 # one case = scripts + schedule: real run, monitor, model comparison
 
-def check_case(ctx, stream, root, scripts, schedule, init, tag=None, model=True, plain=False, lines=None):
-    rr = run_real(root, scripts, schedule, init, file_yields=not plain, start_is_step=plain)
+def check_case(ctx, stream, root, scripts, schedule, init, tag=None, model=True, plain=False, lines=None, dir0=True):
+    if not dir0:
+        init = None
+    rr = run_real(root, scripts, schedule, init, file_yields=not plain, start_is_step=plain, dir0=dir0)
     case = {"scripts": [s.spec() for s in scripts], "schedule": [[i, fk] for i, fk in schedule],
-            "executed": [[i, fk] for i, fk in rr.steps], "init": None if init is None else hx(init), "plain": plain}
+            "executed": [[i, fk] for i, fk in rr.steps], "init": None if init is None else hx(init), "plain": plain,
+            "dir0": dir0}
     if rr.error is not None:
         raise core.InfraError(f"scheduler failed on {case}: {rr.error}")
     nfault = sum(1 for _, fk in rr.steps if fk)
@@ -821,7 +909,7 @@ def check_case(ctx, stream, root, scripts, schedule, init, tag=None, model=True,
     for what, cls in monitor(scripts, init, rr):
         ctx.oracle_fail(stream, dict(case, events=[list(e) for e in rr.events]), what, cls)
     if model and not plain:
-        lines.append((stream, case, model_line(scripts, rr.steps, init), real_trace(rr),
+        lines.append((stream, case, model_line(scripts, rr.steps, init, dir0=dir0), real_trace(rr),
                       "".join("1" if rr.closed.get(i) else "0" for i in range(len(scripts)))))
     return rr
 
@@ -847,6 +935,7 @@ def flush_model(ctx, lines):
 # streams under the scheduler
 
 def solo_len(root, s: Script, init) -> int:
+    """number of yield points of the script on its own, parent directory present (an upper bound when it is not)"""
     rr = run_real(root, [s], [], init)
     if rr.error:
         raise core.InfraError("solo run failed: " + rr.error)
@@ -865,6 +954,17 @@ PAIR_SCRIPTS = [
 ]
 
 
+# LOCK ACQUISITION WHEN THE PARENT DIRECTORY IS MISSING / PRUNED: (name, a, b, directory present initially, init)
+DIR_PAIRS = [
+    ("nomk/mk:dir-absent", W(b"A"), W(b"B", mk=True), False, None),
+    ("mk/mk:dir-absent", W(b"A1", b"A2", mk=True), W(b"B", mk=True, fsync=False), False, None),
+    ("mk/nomk:dir-absent", W(b"A", mk=True, end="a"), W(b"B"), False, None),
+    ("mk/pruner:dir-empty", W(b"A", mk=True), PRUNER, True, None),
+    ("nomk/pruner:dir-empty", W(b"A", fsync=False), PRUNER, True, None),
+    ("mk/pruner:dir-with-file", W(b"A", mk=True), PRUNER, True, b"old"),
+]
+
+
 def _stream_exhaustive2(ctx, root, lines):
     """all interleavings with <= 2 pre-emptions of two actors, for a catalogue of script pairs"""
     stream = "sched.exhaustive2"
@@ -879,6 +979,12 @@ def _stream_exhaustive2(ctx, root, lines):
             if name == "wwc/wc" and init is not None:
                 ctx.sample({"stream": stream, "scripts": [a.spec(), b.spec()], "schedule": "".join(sch),
                             "real_trace": real_trace(rr)})
+        flush_model(ctx, lines)
+    for name, a, b, dir0, init in DIR_PAIRS:
+        la, lb = solo_len(root, a, init), solo_len(root, b, init)
+        for sch in sched.enumerate_schedules({"0": la, "1": lb}, 3 if ctx.thorough else 2):
+            check_case(ctx, stream, root, [a, b], [(int(x), None) for x in sch], init, tag=name, lines=lines, dir0=dir0)
+            total += 1
         flush_model(ctx, lines)
     ctx.extra_cov["exhaustive2_schedules"] = total
     ctx.extra_cov["exhaustive2_max_preemptions"] = 3 if ctx.thorough else 2
@@ -987,7 +1093,7 @@ def _rand_script(rng, who: int) -> Script:
         body = [rng.choice([("w", tagb * rng.randint(1, 2)), "c", "a"]) for _ in range(rng.randint(1, 4))]
     hW = rng.choice([["a"], ["a"], ["a"], ["c"], []])
     hC = rng.choice([[], ["a"], ["a"], ["c"]])
-    return Script(body, hW, hC, fsync=rng.random() < 0.7, perm=rng.random() < 0.4)
+    return Script(body, hW, hC, fsync=rng.random() < 0.7, perm=rng.random() < 0.4, mk=rng.random() < 0.3)
 
 
 def _stream_three(ctx, root, lines):
@@ -1007,6 +1113,16 @@ def _stream_three(ctx, root, lines):
         x, y, z = perm
         sch = [(x, None)] * (ls[x]) + [(y, None)] + [(x, None)] + [(z, None)] + [(y, None)] * ls[y] + [(z, None)] * ls[z]
         check_case(ctx, stream, root, trio, sch, b"old", tag="rename-open-window", lines=lines)
+    flush_model(ctx, lines)
+    # a writer whose caller creates the directory, one whose caller does not, and a pruner
+    for dir0 in (True, False):
+        trio_d = [W(b"A", mk=True), W(b"B", fsync=False), PRUNER]
+        lsd = [solo_len(root, x, None) for x in trio_d]
+        alld = list(sched.enumerate_schedules({str(i): l for i, l in enumerate(lsd)}, 2))
+        nd = ctx.budget(80)
+        for sch in (alld if len(alld) <= nd else rng.sample(alld, nd)):
+            check_case(ctx, stream, root, trio_d, [(int(x), None) for x in sch], None, tag=f"dir:{int(dir0)}:enum<=2",
+                       lines=lines, dir0=dir0)
     flush_model(ctx, lines)
     for _ in range(ctx.budget(150)):
         sch = []
@@ -1028,11 +1144,17 @@ def _stream_random(ctx, root, lines):
         n = rng.choice([2, 2, 3])
         scripts = [_rand_script(rng, i) for i in range(n)]
         init = rng.choice([b"old", b"old", None, b""])
+        dir0 = True
+        if rng.random() < 0.3:      # directory trouble: a pruner among the actors and/or no directory to begin with
+            if rng.random() < 0.7:
+                scripts[rng.randrange(n)] = PRUNER
+            dir0 = rng.random() < 0.5
+            init = None if (not dir0 or rng.random() < 0.7) else init
         sch = []
         for _ in range(rng.randint(4, 10 * n)):
             fk = rng.choice(FAULT_KINDS) if rng.random() < 0.12 else None
             sch.append((rng.randrange(n), fk))
-        rr = check_case(ctx, stream, root, scripts, sch, init, lines=lines)
+        rr = check_case(ctx, stream, root, scripts, sch, init, lines=lines, dir0=dir0)
         if len(ctx.samples) < 4 and any(fk for _, fk in rr.steps) and len(rr.events) > 8:
             ctx.sample({"stream": stream, "scripts": [x.spec() for x in scripts],
                         "executed": [f"{i}{'!' + fk if fk else ''}" for i, fk in rr.steps], "real_trace": real_trace(rr)})
@@ -1094,7 +1216,8 @@ def _run_corpus(ctx, root, lines):
             scripts = [Script.from_spec(s) for s in c["scripts"]]
             sch = [(i, fk) for i, fk in c["schedule"]]
             init = None if c.get("init") is None else unhx(c["init"])
-            check_case(ctx, stream, root, scripts, sch, init, tag=f.stem, plain=bool(c.get("plain")), lines=lines)
+            check_case(ctx, stream, root, scripts, sch, init, tag=f.stem, plain=bool(c.get("plain")), lines=lines,
+                       dir0=c.get("dir0", True))
     flush_model(ctx, lines)
 
 
@@ -1141,6 +1264,7 @@ def build_template(tpl: Path) -> dict:
     r.refs[b"refs/heads/master"] = c1.id
     r.refs[b"refs/heads/topic"] = c1.id
     r.refs[b"refs/tags/v1"] = c1.id
+    r.refs[b"refs/heads/x/y"] = c1.id      # the only ref below refs/heads/x/: deleting it prunes the directory
     r.refs.add_packed_refs({b"refs/heads/packed": c1.id, b"refs/tags/v0": c1.id})
     from dulwich.index import Index
     idx = Index(os.path.join(r.controldir(), "index"), read=False)
@@ -1551,7 +1675,7 @@ def _stream_fault_callers(ctx, base: Path, only=None, only_fault=None, stream="f
 
 import re as _re
 
-CALLER_CALLS = {"open-x", "open-w", "replace", "rename", "remove", "unlink"}
+CALLER_CALLS = {"open-x", "open-w", "replace", "rename", "remove", "unlink", "mkdir", "rmdir"}
 _HEX40 = _re.compile(rb"^[0-9a-f]{40}$")
 
 
@@ -1800,6 +1924,7 @@ def _caller_ops(ids):
     kw = dict(committer=b"V Erif <verif@example.com>", timestamp=FIXED_TIME, timezone=0, message=b"verif")
     PK, TOPIC, MASTER, V0, NEW2 = (b"refs/heads/packed", b"refs/heads/topic", b"refs/heads/master", b"refs/tags/v0",
                                    b"refs/heads/new2")
+    XY, XZ = b"refs/heads/x/y", b"refs/heads/x/z"
 
     def sha(x):
         return {x + b"\n"}
@@ -1871,6 +1996,15 @@ def _caller_ops(ids):
         "shallow_add": COp("update_shallow(+c2)", lambda r, w: r.update_shallow({c2}, None), {"shallow": {c2}}),
         "shallow_un": COp("update_shallow(-c1)", lambda r, w: r.update_shallow(None, {c1}), {"shallow": {c1}}),
         "alt2": alt("alt2"), "alt3": alt("alt3"),
+        # LOCK ACQUISITION WHEN THE PARENT DIRECTORY IS MISSING: remove_if_equals prunes refs/heads/x/ (lock-free rmdir)
+        # while another writer creates a ref below it (ensure_dir_exists, then the lock)
+        "rm_xy": COp("remove_if_equals(x/y) [prunes x/]", lambda r, w: r.refs.remove_if_equals(XY, c1, **kw),
+                     {"packed": {XY}}, {XY: set()}),
+        "set_xz": COp("set_if_equals(x/z new)", lambda r, w: r.refs.set_if_equals(XZ, None, c2, **kw),
+                      {"packed": {XZ}}, {XZ: sha(c2) | sha(c1)}),
+        "add_xz": COp("add_if_new(x/z)", lambda r, w: r.refs.add_if_new(XZ, c1, **kw), {"packed": {XZ}}, {XZ: sha(c2) | sha(c1)}),
+        "set_xy": COp("set_if_equals(x/y,c1->c2)", lambda r, w: r.refs.set_if_equals(XY, c1, c2, **kw),
+                      {"packed": {XY}}, {XY: sha(c2)}),
     }
     pairs = [("rm_packed", "apr_del_packed"), ("rm_packed", "apr_del_v0"), ("rm_packed", "pack_all"), ("apr_del_packed", "rm_packed"),
              ("apr_topic", "apr_master"), ("apr_topic", "rm_packed"), ("apr_del_v0", "apr_del_packed"),
@@ -1879,14 +2013,19 @@ def _caller_ops(ids):
              ("rm_topic", "set_t_c2"), ("rm_topic", "apr_topic"), ("sym_topic", "sym_master"),
              ("lref", "set_m_tree"), ("lref_noop", "set_m_tree"), ("lref_noop", "lref"),
              ("cfg_user", "cfg_editor"), ("idx_b", "idx_c"), ("idx_w", "idx_b"), ("shallow_add", "shallow_un"),
-             ("alt2", "alt3")]
+             ("alt2", "alt3"),
+             ("rm_xy", "set_xz"), ("rm_xy", "add_xz"), ("set_xz", "rm_xy"), ("set_xz", "add_xz"), ("rm_xy", "set_xy")]
     return O, pairs
+
+
+# (writer A, pruner B, writer C) on refs below refs/heads/x/
+CALLER_TRIPLES = [("set_xz", "rm_xy", "add_xz"), ("add_xz", "rm_xy", "set_xz")]
 
 
 def _callers_baseline(tpl: Path) -> dict:
     base = {}
     for rel in [".git/packed-refs", ".git/config", ".git/index", ".git/shallow", ".git/objects/info/alternates", ".git/HEAD",
-                ".git/refs/heads/master", ".git/refs/heads/topic", ".git/refs/tags/v1"]:
+                ".git/refs/heads/master", ".git/refs/heads/topic", ".git/refs/tags/v1", ".git/refs/heads/x/y"]:
         try:
             got = _read_kind(tpl, rel, _kind_of(rel))
         except ValueError as e:
@@ -1906,6 +2045,8 @@ def _stream_callers2(ctx, base: Path, only_pairs=None, fixed_schedule=None, stre
     rng = ctx.rng
     for an, bn in pairs:
         if only_pairs and (an, bn) not in only_pairs:
+            continue
+        if fixed_schedule is not None and len(next(iter(only_pairs))) != 2:
             continue
         a, b = O[an], O[bn]
         lens = []
@@ -1948,6 +2089,46 @@ def _stream_callers2(ctx, base: Path, only_pairs=None, fixed_schedule=None, stre
                              "runs_with_FileLocked": locked}
     if fixed_schedule is None:
         ctx.extra_cov["callers2_pairs"] = cov
+    # three real callers: a pruner of the directory and two writers of the same ref below it.  Two holders of one lock
+    # need a writer paused inside its critical section: the window family  A^k  B*  A^j  C^m  A*  C*  (B = the pruner)
+    for tri in CALLER_TRIPLES:
+        if only_pairs and tuple(tri) not in only_pairs:
+            continue
+        ops = [O[n] for n in tri]
+        if fixed_schedule is not None:
+            fam = [list(fixed_schedule)]
+        else:
+            lens = []
+            for op in ops:
+                cr = run_callers(tpl, w, [op], [], baseline)
+                if cr.error:
+                    raise core.InfraError(f"callers2 solo run of {op.name} failed: {cr.error}")
+                lens.append(len(cr.steps))
+            fam = []
+            for k in range(1, lens[0] + 1):
+                for j in range(1, 5):
+                    for m in range(1, lens[2] + 1):
+                        fam.append([0] * k + [1] * (lens[1] + 2) + [0] * j + [2] * m + [0] * (lens[0] + 4) + [2] * (lens[2] + 4))
+            cap = ctx.budget(120, mult=8)
+            if len(fam) > cap:
+                fam = rng.sample(fam, cap)
+        n3 = 0
+        for steps in fam:
+            cr = run_callers(tpl, w, ops, steps, baseline)
+            if cr.error:
+                raise core.InfraError(f"callers2 {tri} schedule {steps}: {cr.error}")
+            case = {"pair": list(tri), "ops": [o.name for o in ops], "schedule": steps, "executed": cr.steps,
+                    "results": cr.results, "events": [list(e) for e in cr.events]}
+            ctx.count(stream, (tuple(tri), tuple(cr.steps)), True, "/".join(tri))
+            n3 += 1
+            if verbose:
+                for k, e in enumerate(cr.events):
+                    print("replay step", k, e)
+                print("replay results", cr.results)
+            for what, cls in cr.bad:
+                ctx.oracle_fail(stream, case, " || ".join(o.name for o in ops) + f": {what}", cls)
+        if fixed_schedule is None:
+            ctx.extra_cov.setdefault("callers2_triples", {})["/".join(tri)] = n3
 
 
 def run(ctx: core.Ctx):
@@ -2060,7 +2241,8 @@ def replay(ctx: core.Ctx, data: dict) -> int:
         sch = [(i, fk) for i, fk in (c.get("schedule") if c.get("plain") else (c.get("executed") or c["schedule"]))]
         init = None if c.get("init") is None else unhx(c["init"])
         lines = []
-        rr = check_case(ctx, "replay", base / "replay", scripts, sch, init, plain=bool(c.get("plain")), lines=lines)
+        rr = check_case(ctx, "replay", base / "replay", scripts, sch, init, plain=bool(c.get("plain")), lines=lines,
+                        dir0=c.get("dir0", True))
         for k, e in enumerate(rr.events):
             print("replay step", k, e, "->", rr.snaps[k + 1], "lock creator:", rr.lock_owner[k + 1])
         flush_model(ctx, lines)
